@@ -170,8 +170,18 @@ func (p *fakePeer) structVariant(b *block.Block) rlp.RawValue {
 	return raw
 }
 
-func bodyBroken(b *block.Block) rlp.RawValue {
-	raw, err := rlp.EncodeToBytes([]any{b.Header(), []any{[]any{}}}) // tx list holding an empty list
+// bodyBroken: header fine, transaction list well-formed RLP but not decodable as transactions.
+func bodyBroken(b *block.Block, variant int) rlp.RawValue {
+	var txs []any
+	switch variant % 3 {
+	case 0:
+		txs = []any{[]any{}} // an empty list where a legacy tx is expected
+	case 1:
+		txs = []any{[]byte{}} // an empty string where a typed tx (type byte + payload) is expected
+	default:
+		txs = []any{[]byte{0x51}} // a typed tx of one byte: the type, no payload
+	}
+	raw, err := rlp.EncodeToBytes([]any{b.Header(), txs})
 	must(err)
 	return raw
 }
@@ -222,7 +232,7 @@ func (p *fakePeer) answer(n int) (ev trace.Ev, items []item, wire string) {
 			bad = true
 		case "body":
 			r := p.e.rec(b, "body", p.sc.rk)
-			items[i] = item{bodyBroken(b), r}
+			items[i] = item{bodyBroken(b, p.f.variant), r}
 			bad = true
 		case "invalid":
 			ib := p.invalidVariant(b)
@@ -409,9 +419,6 @@ func (e *env) runDownload(sc *scenario, peer string, f fault, batch int, remote 
 	return e.runDownloadN(sc, peer, f, batch, remote, seq, 0)
 }
 
-// hangBound: how long download may take to return after the scripted peer is done and the handler has failed.
-const hangBound = 20 * time.Second
-
 func (e *env) runDownloadN(sc *scenario, peer string, f fault, batch int, remote *stack, seq, attempt int) dlResult {
 	local := e.open(sc.template.Clone(), false, false)
 	closeLocal := true
@@ -491,16 +498,28 @@ func (e *env) runDownloadN(sc *scenario, peer string, f fault, batch int, remote
 		go func() { fp.run(); close(remoteDone) }()
 	}
 
-	ctx, cancel := context.WithTimeout(context.Background(), 60*time.Second)
-	if f.kind == "flood" {
-		// as Communicator.Sync does: the context ends with the process only; nothing may rely on a deadline
-		cancel()
-		ctx, cancel = context.WithCancel(context.Background())
+	// as Communicator.Sync does: the context ends with the process only; nothing may rely on a deadline
+	ctx, cancel := context.WithCancel(context.Background())
+	// progress signals of the hang rule: messages on the wire, queue length of the block stream, local best, handler state
+	var acts atomic.Int64
+	for _, end := range []*pipe.End{le, re} {
+		old := end.Tap
+		end.Tap = func(code uint64, payload []byte) {
+			acts.Add(1)
+			if old != nil {
+				old(code, payload)
+			}
+		}
 	}
+	var streamLen atomic.Value // func() int
+	var handlerState atomic.Int32
 	var panicText string
 	markers := -1
 	handler := func(hctx context.Context, stream <-chan *block.Block) (herr error) {
+		streamLen.Store(func() int { return len(stream) })
+		handlerState.Store(1)
 		defer func() {
+			handlerState.Store(2)
 			if r := recover(); r != nil {
 				panicText = fmt.Sprintf("panic: %v\n%s", r, debug.Stack())
 				herr = fmt.Errorf("panic: handleBlockStream: %v", r)
@@ -540,36 +559,63 @@ func (e *env) runDownloadN(sc *scenario, peer string, f fault, batch int, remote
 	}()
 	var served <-chan error
 	var err error
-	if f.kind == "flood" {
-		// hostile input must be harmless: once the peer has delivered everything and the handler has refused the
-		// first block, download has to come back (normally within a fraction of a second)
+	// Hostile input must be harmless: download has to come back. The hang rule counts polls without ANY progress (no message
+	// on the wire, block stream queue unchanged, local best unchanged, handler state unchanged) - a slow but progressing
+	// download on a loaded machine keeps resetting it; hangPolls polls (>= 15 s of them) of nothing is a wedge. The case is
+	// then repeated once on a fresh node; only two wedges in a row are reported. The absolute cap is harness trouble.
+	const hangPolls = 300
+	type snap struct {
+		acts int64
+		q    int
+		best thor.Bytes32
+		h    int32
+	}
+	var last snap
+	idle, hung := 0, false
+	capAt := time.Now().Add(240 * time.Second)
+wait:
+	for {
 		select {
 		case o := <-outCh:
 			served, err = o.served, o.err
-		case <-time.After(hangBound):
-			cancel() // releases whatever still listens to the outer context
-			le.Close()
-			if attempt == 0 {
-				return e.runDownloadN(sc, peer, f, batch, remote, seq, 1) // rule out load: both attempts must hang
-			}
-			res := dlResult{Label: sc.label, Peer: peer, Fault: f.kind, Height: f.height, Batch: batch, Status: "hang",
-				Err: fmt.Sprintf("download did not return within %v after the handler error (two attempts)", hangBound), Markers: -1}
-			closeLocal = false // goroutines of the wedged download still use the node
-			e.emitDownload(sc, peer, f, batch, flog, res, []string{}, e.name(local.best().ID()))
-			return res
+			break wait
+		case <-time.After(50 * time.Millisecond):
 		}
-	} else {
-		o := <-outCh
-		served, err = o.served, o.err
+		cur := snap{acts: acts.Load(), best: local.best().ID(), h: handlerState.Load()}
+		if fn, ok := streamLen.Load().(func() int); ok {
+			cur.q = fn()
+		}
+		if cur != last {
+			last, idle = cur, 0
+		} else {
+			idle++
+		}
+		if idle >= hangPolls {
+			hung = true
+			break wait
+		}
+		if time.Now().After(capAt) {
+			fail("download case %s/%s/%s@%d neither finished nor came to rest within the absolute cap", sc.label, peer, f.kind, f.height)
+		}
+	}
+	if hung {
+		cancel() // releases whatever still listens to the outer context
+		le.Close()
+		if attempt == 0 {
+			return e.runDownloadN(sc, peer, f, batch, remote, seq, 1) // rule out load: both attempts must wedge
+		}
+		res := dlResult{Label: sc.label, Peer: peer, Fault: f.kind, Height: f.height, Batch: batch, Status: "hang", Markers: -1,
+			Err: fmt.Sprintf("download did not return: %d polls without a message, an import or a queue movement (handler state %d, "+
+				"two attempts)", hangPolls, last.h)}
+		closeLocal = false // goroutines of the wedged download still use the node
+		e.emitDownload(sc, peer, f, batch, flog, res, []string{}, e.name(local.best().ID()))
+		return res
 	}
 	elapsed := time.Since(t0)
 	cancel()
 	le.Close()
 	serveErr := <-served
 	<-remoteDone
-	if errors.Is(err, context.DeadlineExceeded) {
-		fail("download timed out in case %s/%s/%s@%d", sc.label, peer, f.kind, f.height)
-	}
 
 	// observations
 	res := dlResult{Label: sc.label, Peer: peer, Fault: f.kind, Height: f.height, Batch: batch, Status: errClass(err),
